@@ -318,6 +318,8 @@ class Server(object):
                 tls_failure.send(self.io)
                 raise StopIteration()
             self.ehlo_as = None
+            self.have_mailfrom = None
+            self.have_rcptto = None
             self.extensions.drop('STARTTLS')
 
     def _command_AUTH(self, arg):
